@@ -52,6 +52,9 @@ def main() -> int:
                 print(r.stdout[-800:], r.stderr[-800:])
     finally:
         sh(["git", "-C", wt, "checkout", "--", "."])
+        # C17's translator rewrote the generated Lean file from the mutated tree: regenerate from /repo
+        sh(["/venv/bin/python", str(ROOT / "harness" / "extract_locks.py"), "--repo", "/repo", "--out",
+            str(ROOT / "lean" / "Redress" / "Generated" / "LockShape.lean")])
     return 0
 
 
